@@ -492,6 +492,12 @@ class VM:
 
                 poll_callback = check_timeout
             regex = JSRegExp(pattern, flags, poll_callback)
+            # a regex literal inherits from RegExp.prototype
+            regexp_constructor = self.globals.get("RegExp")
+            if isinstance(regexp_constructor, JSObject):
+                prototype = regexp_constructor.get("prototype")
+                if isinstance(prototype, JSObject):
+                    regex._prototype = prototype
             self.stack.append(regex)
 
         # Arithmetic
